@@ -8,6 +8,7 @@ CONSTANTS
   Strategy = "temp"
   SkipUnreadable = TRUE
   StrictErr = FALSE
+  DirtySession = FALSE
 INIT Init
 NEXT Next
 CHECK_DEADLOCK FALSE
